@@ -4,8 +4,8 @@ from ..pyvc.engine import Registry
 
 def build():
     reg = Registry()
-    from . import hypergraph, directed, temporal
-    mods = [hypergraph, directed, temporal]
+    from . import hypergraph, directed, temporal, multiplex
+    mods = [hypergraph, directed, temporal, multiplex]
     for m in mods:
         if hasattr(m, "LAYOUT"):
             reg.add_layout(m.LAYOUT)
